@@ -39,11 +39,29 @@ bool lock_and_request_stop(struct stop_state *self)
 //@LIFT b_lars
 #endif
 
+/* keeps the callee symbols in the goto binary even if an edit of pika stops calling one of them (the driver names them in
+ * --replace-call-with-contract); never called */
+void vx_keep_callee_symbols(struct stop_state *s, struct stop_callback_base *cb)
+{
+  lock(s); unlock(s); (void) lock_and_request_stop(s); (void) lock_if_not_stopped(s, cb);
+}
+
 /* ---- list primitives (lifted bodies; their own contracts are units list.*) ---- */
-static void add_this_callback(struct stop_callback_base *self, struct stop_callback_base **callbacks)
+static void add_this_callback_body(struct stop_callback_base *self, struct stop_callback_base **callbacks)
 //@LIFT add_this
-static bool remove_this_callback(struct stop_callback_base *self)
+static bool remove_this_callback_body(struct stop_callback_base *self)
 //@LIFT remove_this
+/* lock discipline: the list is touched only under the lock */
+static void add_this_callback(struct stop_callback_base *self, struct stop_callback_base **callbacks)
+{
+  VX_ASSERT(g_held, "lock discipline: callback list modified without holding the state lock");
+  add_this_callback_body(self, callbacks);
+}
+static bool remove_this_callback(struct stop_callback_base *self)
+{
+  VX_ASSERT(g_held || g_seq, "lock discipline: callback list modified without holding the state lock");
+  return remove_this_callback_body(self);
+}
 
 /* ---- universe ---- */
 static struct stop_state g_S;
